@@ -214,7 +214,7 @@ def truthy(ctx, v):
     if isinstance(v, VBytes):
         n = v.length()
         return simp(to_z3(n) != 0) if is_sym(n) else n != 0
-    if isinstance(v, (VList, VTuple)):
+    if isinstance(v, (VList, VTuple)) or type(v).__name__ == 'VDict':
         return len(v.items) != 0
     if isinstance(v, VSeq):
         return simp(to_z3(v.length) != 0)
@@ -447,8 +447,10 @@ class Interp:
     def iter_static(self, v, n=None):
         if isinstance(v, (VTuple, VList)):
             return list(v.items)
-        if isinstance(v, (tuple, list)):
-            return list(v)
+        if isinstance(v, (tuple, list, dict, set, frozenset)):
+            return [_wrap_const(x) for x in v]
+        if isinstance(v, VDict):
+            return [k for k, _ in v.items]
         if isinstance(v, VBytes):
             ln = v.length()
             if isinstance(ln, int):
@@ -565,6 +567,8 @@ class Interp:
         for k, inv in enumerate(spec.get('inv', ())):
             f = self.spec_eval(inv, fr)
             ctx.oblige(f'inv-entry:{tag}:{k}', 'inv-entry', f, inv, s.lineno)
+        for name, basename in (spec.get('subviews') or {}).items():
+            ctx.oblige(f'inv-entry:{tag}:subview:{name}', 'inv-entry', subview_formula(fr.lookup(name), fr.lookup(basename)), f'{name} is a sub-view of {basename}', s.lineno)
         # 2. havoc
         assigned = _assigned_names(s.body) | set(spec.get('modifies', ()))
         if kind == 'for':
@@ -586,10 +590,33 @@ class Interp:
             if cur is _UNSET:
                 continue
             f_.locs[name] = self.havoc_like(cur, f'{name}@{tag}')
+        for name in sorted(_mutated_names(s.body) - assigned):
+            # containers mutated through calls inside the loop: content unknown at the cut (identity kept is irrelevant:
+            # they are meta-level values), so they become opaque containers of unknown size
+            f_ = fr
+            while f_ is not None and name not in f_.locs:
+                f_ = f_.parent
+            if f_ is None:
+                continue
+            cur = f_.locs[name]
+            if type(cur).__name__ in ('VDict', 'VList'):
+                ln = ctx.fresh(f'{name}@{tag}!size')
+                ctx.assume(ln >= 0)
+                f_.locs[name] = VObj(None, {'bool!': simp(ln != 0), '__len__': ln, 'opaque!': True}, name)
         for fld in _assigned_self_fields(s.body):
             o = fr.locs.get('self')
             if isinstance(o, VObj) and fld in o.fields:
                 o.fields[fld] = self.havoc_like(o.fields[fld], f'self.{fld}@{tag}')
+        for name, basename in (spec.get('subviews') or {}).items():
+            # the variable is, by (checked) invariant, a window into the SAME array as its base: only offset/length are havocked
+            base = fr.lookup(basename).pieces[0] if fr.lookup(basename).pieces else None
+            if base is None:
+                fr.assign(name, VBytes([], fr.lookup(basename).kind))
+                continue
+            off = ctx.fresh(f'{name}@{tag}!off')
+            ln = ctx.fresh(f'{name}@{tag}!len')
+            ctx.assume(z_and(off >= 0, ln >= 0, to_z3(off + ln) <= to_z3(base.len)))
+            fr.assign(name, VBytes([Piece('view', base.a, simp(base.off + off), ln)], fr.lookup(basename).kind))
         hv = spec.get('havoc')
         if hv:
             hv(self, fr, tag)
@@ -619,6 +646,8 @@ class Interp:
             for k, inv in enumerate(spec.get('inv', ())):
                 f = self.spec_eval(inv, fr)
                 ctx.oblige(f'inv-step:{tag}:{k}', 'inv-step', f, inv, s.lineno)
+            for name, basename in (spec.get('subviews') or {}).items():
+                ctx.oblige(f'inv-step:{tag}:subview:{name}', 'inv-step', subview_formula(fr.lookup(name), fr.lookup(basename)), f'{name} is a sub-view of {basename}', s.lineno)
             if dec0 is not None:
                 dec1 = self.spec_eval(spec['decreases'], fr)
                 ctx.oblige(f'variant:{tag}', 'variant', z_and(to_z3(dec0) >= 0, to_z3(dec1) < to_z3(dec0)), spec['decreases'], s.lineno)
@@ -1395,6 +1424,23 @@ class Interp:
         return call_vfunc(self, f, args, kwargs, node)
 
 
+def subview_formula(v, base):
+    """v is a window into the same underlying array as base (structural) within its bounds (formula)"""
+    if not isinstance(v, VBytes) or not isinstance(base, VBytes):
+        return False
+    if not v.pieces:
+        return True
+    if len(v.pieces) != 1 or len(base.pieces) != 1:
+        return False
+    p, b = v.pieces[0], base.pieces[0]
+    if p.kind != 'view' or b.kind != 'view':
+        return False
+    same = p.a is b.a or (is_sym(p.a) and is_sym(b.a) and z3.eq(p.a, b.a))
+    if not same:
+        return False
+    return simp(z_and(to_z3(p.off) >= to_z3(b.off), to_z3(p.off) + to_z3(p.len) <= to_z3(b.off) + to_z3(b.len), to_z3(p.len) >= 0))
+
+
 class VIterDone:
     def __init__(self, seq):
         self.seq = seq
@@ -1493,6 +1539,30 @@ def _assigned_names(stmts):
                 for it in n.items:
                     if it.optional_vars is not None:
                         out |= _target_names(it.optional_vars)
+    return out
+
+
+def _mutated_names(stmts):
+    """local names whose object may be mutated by the statements: receiver of a method call, argument of a call, base of
+    a subscript/attribute store"""
+    out = set()
+    for s in stmts:
+        for n in ast.walk(s):
+            if isinstance(n, ast.Call):
+                f = n.func
+                while isinstance(f, (ast.Attribute, ast.Call, ast.Subscript)):
+                    f = f.value if not isinstance(f, ast.Call) else f.func
+                if isinstance(f, ast.Name) and isinstance(n.func, ast.Attribute):
+                    out.add(f.id)
+                for a in list(n.args) + [k.value for k in n.keywords]:
+                    if isinstance(a, ast.Name):
+                        out.add(a.id)
+            elif isinstance(n, (ast.Subscript, ast.Attribute)) and isinstance(n.ctx, ast.Store):
+                b = n.value
+                while isinstance(b, (ast.Attribute, ast.Subscript)):
+                    b = b.value
+                if isinstance(b, ast.Name):
+                    out.add(b.id)
     return out
 
 
